@@ -101,6 +101,43 @@ def py_isinstance(x, t):
     return False
 
 
+class _Sigma(Tag):
+    """singular values of one decomposition: an array object; in-place arithmetic changes it for everyone who holds it and is recorded"""
+    def __init__(self, name, length):
+        super().__init__(name, length)
+        self.changed = []
+
+    def _ip(self, what):
+        self.changed.append(what)
+        return self
+
+    def __itruediv__(self, o):
+        return self._ip(f"/= {o!r}")
+
+    def __imul__(self, o):
+        return self._ip(f"*= {o!r}")
+
+    def __iadd__(self, o):
+        return self._ip(f"+= {o!r}")
+
+    def __isub__(self, o):
+        return self._ip(f"-= {o!r}")
+
+    def __setitem__(self, k, v):
+        self._ip(f"[{k!r}] = {v!r}")
+
+    def __truediv__(self, o):
+        return Tag(f"{self._name}/{o!r}", self._len)
+
+    def __mul__(self, o):
+        return Tag(f"{self._name}*{o!r}", self._len)
+
+    __rmul__ = __mul__
+
+    def copy(self):
+        return Tag(f"{self._name}.copy()", self._len)
+
+
 def compress_bond_rule(chk, src, rule):
     """abstract run of MatrixProduct.compress (CompressConfig.compute_m_trunc / _fixed_m_trunc run from source) on a 5-site chain, both directions, the kept count given by the
     configuration (per-bond limits), by an explicit list / tuple, and by one number: every site but the last of the sweep is decomposed once, in sweep order, its factors and labels
@@ -111,9 +148,11 @@ def compress_bond_rule(chk, src, rule):
     resolve = class_resolver(src, {"Mps": MPS, "CompressConfig": CONFIGS})
     crit = Sym("CompressCriteria", threshold="<threshold>", fixed="<fixed>", both="<both>")
     for to_right in (True, False):
-        for path in ("configuration", "configuration above the rank", "list", "tuple", "number", "number above the rank"):
+        for path in ("configuration", "configuration above the rank", "list", "tuple", "number", "number above the rank", "configuration, singular values returned", "number, singular values returned"):
+            ret_s = path.endswith("returned")
+            path0 = path.split(",")[0]
             limits = [1] + [3 + k for k in range(1, n)] + [1]       # limit of bond k (between site k-1 and k); the boundary bonds have dimension one
-            cfg = Sym("compress_config", criteria=crit.fixed, max_dims=[50] * (n + 1) if path == "configuration above the rank" else list(limits), threshold=Blob("thr"), bonddim_should_set=False)
+            cfg = Sym("compress_config", criteria=crit.fixed, max_dims=[50] * (n + 1) if path0 == "configuration above the rank" else list(limits), threshold=Blob("thr"), bonddim_should_set=False)
             cfg._cls = "CompressConfig"
             updates = []
 
@@ -127,14 +166,18 @@ def compress_bond_rule(chk, src, rule):
             def svd(mat, qnl, qnr, qntot, QR=False, system=None, full_matrices=True, me=me, decomposed=decomposed):
                 k = next((i for i, s_ in enumerate(me.sites) if s_ is mat or s_ == mat), None)
                 decomposed.append((k, repr(qnl), repr(qnr), system, full_matrices))
-                return Tag(f"u{k}"), Tag(f"sigma{k}", 7), Tag(f"qnl{k}"), Tag(f"v{k}"), Tag(f"sigma{k}", 7), Tag(f"qnr{k}")
+                sg = _Sigma(f"sigma{k}", 7)
+                return Tag(f"u{k}"), sg, Tag(f"qnl{k}"), Tag(f"v{k}"), sg, Tag(f"qnr{k}")
             it = SymInterp(src, resolve, {"svd_qn": Sym("svd_qn", svd_qn=svd), "CompressCriteria": crit, "logger": Blob("logger"), "sizeof_fmt": lambda x: "size", "isinstance": py_isinstance,
-                                          "np": OpenSym("np", make=lambda t: Blob(t), ndarray="np.ndarray", inf=10 ** 9), "xp": OpenSym("xp", make=lambda t: Blob(t)), "Matrix": "Matrix"})
+                                          "np": OpenSym("np", make=lambda t: Blob(t), ndarray="np.ndarray", inf=10 ** 9, pad=lambda a_, w_, **k_: ("padded", a_), array=lambda x, *a_, **k_: ("array", list(x)),
+                                                       linalg=OpenSym("linalg", make=lambda t: Blob(t))),
+                                          "xp": OpenSym("xp", make=lambda t: Blob(t)), "Matrix": "Matrix"})
             it.max_depth = 12
-            arg = {"configuration": None, "configuration above the rank": None, "list": list(limits), "tuple": tuple(limits), "number": 5, "number above the rank": 50}[path]
+            arg = {"configuration": None, "configuration above the rank": None, "list": list(limits), "tuple": tuple(limits), "number": 5, "number above the rank": 50}[path0]
             problems = []
+            res = None
             try:
-                it.call_function(fi, [me] + ([] if arg is None else [arg]))
+                res = it.call_function(fi, [me] + ([] if arg is None else [arg]), {"ret_s": True} if ret_s else {})
             except SymRaise as e:
                 problems.append(f"raises {e}")
             order = list(range(0, n - 1)) if to_right else list(range(n - 1, 0, -1))
@@ -148,12 +191,21 @@ def compress_bond_rule(chk, src, rule):
                         problems.append(f"site {k}: decomposition called with labels ({ql}, {qr}), system={system}, full_matrices={full}")
                     if (repr(u), repr(vt), repr(sigma), repr(qnl), repr(qnr)) != (f"u{k}", f"v{k}.T", f"sigma{k}", f"qnl{k}", f"qnr{k}"):
                         problems.append(f"site {k}: update receives ({u!r}, {vt!r}, {sigma!r}, {qnl!r}, {qnr!r})")
+                    if getattr(sigma, "changed", None):
+                        problems.append(f"site {k}: the singular values handed to the site update were changed in place ({sigma.changed[0]}): the state is rescaled at this bond")
                     bond = k + 1 if to_right else k
-                    want = {"number": 5, "number above the rank": 7, "configuration above the rank": 7}.get(path, limits[bond])
+                    want = {"number": 5, "number above the rank": 7, "configuration above the rank": 7}.get(path0, limits[bond])
                     if m != want:
                         problems.append(f"site {k} (to_right={to_right}): kept count {m}, expected {want}" + ("" if "number" in path or "above" in path else f" = limit of bond {bond}") + (" = number of singular values" if "above" in path else ""))
                 if (me.to_right, me.qnidx) != ((not to_right), (n - 1 if to_right else 0)):
                     problems.append(f"after the sweep to_right={me.to_right}, qnidx={me.qnidx}")
+                if not ret_s and res is not me:
+                    problems.append("compress does not return the object")
+                if ret_s:
+                    ok_r = isinstance(res, tuple) and len(res) == 2 and res[0] is me and isinstance(res[1], tuple) and res[1][0] == "array" and \
+                        [getattr(x[1], "_name", None) if isinstance(x, tuple) else getattr(x, "_name", None) for x in res[1][1]] == [f"sigma{k}" for k in order]
+                    if not ok_r:
+                        problems.append(f"with ret_s the result is {str(res)[:80]}; expected (the object, the singular values of every bond in sweep order, padded)")
             chk.ob(rule, f"compress[to_right={to_right}, kept count from {path}]", not problems, fi.where, problems[:3] or "every bond truncated once with its own limit", "every bond truncated once with its own limit",
                    line=fi.node.lineno, detail=f"compress ({path}): " + (problems[0] if problems else "") + " - an explicit per-bond list and CompressConfig.max_dims must limit the bond that is being cut: "
                                                                                                       "sweeping right that is bond idx+1, sweeping left bond idx")
@@ -1101,13 +1153,39 @@ def svd_qn_rule(chk, src, rule):
             cols = sorted({g % 3 for r in grid.v for g in r})
             return Block(rows, cols)
 
+    tiny = [False]
+
+    class Mag(Sym):
+        """magnitude of the entries of a block (np.abs / max / norm ...): a comparison with anything has the scripted outcome `the block is tiny`"""
+        def symattr(self, attr):
+            return lambda *a, **k: Mag(f"{self._name}.{attr}()")
+
+        def __lt__(self, o):
+            return tiny[0]
+
+        __le__ = __lt__
+
+        def __gt__(self, o):
+            return not tiny[0]
+
+        __ge__ = __gt__
+
+        def __mul__(self, o):
+            return self
+
+        __rmul__ = __truediv__ = __mul__
+
     class Block(Sym):
         def __init__(self, rows, cols):
             super().__init__(f"block{rows}x{cols}")
             self.rows, self.cols, self.shape = rows, cols, (len(rows), len(cols))
+            self.dtype = "dtype"
 
         def sector(self):
             return lq[self.rows[0]]
+
+        def __abs__(self):
+            return Mag(f"abs({self._name})")
 
     def mask(qn, n):
         n = list(n.rows[0]) if isinstance(n, LArr) else list(n)
@@ -1153,16 +1231,37 @@ def svd_qn_rule(chk, src, rule):
             return list(self.rows)
     npx = OpenSym("np", make=lambda t: Blob(t), prod=lambda sh: 1, where=where, zeros=lambda shape, dtype=None: PArr(shape[0], [("zero",)] * shape[1]) if isinstance(shape, (list, tuple)) else Vec([0] * int(shape)),
                   concatenate=concatenate, allclose=lambda a, b, **k: (a.v == b.v) if isinstance(a, Vec) else True, argsort=argsort, flip=lambda x, axis=None: IArr(x.v[::-1]),
-                  array=lambda x, **k: LList(list(x)) if isinstance(x, list) else x, flatnonzero=lambda m: where(m)[0])
+                  array=lambda x, **k: LList(list(x)) if isinstance(x, list) else x, flatnonzero=lambda m: where(m)[0],
+                  abs=lambda x: Mag(f"abs({getattr(x, '_name', x)})") if isinstance(x, (Block, Mag)) else abs(x), absolute=lambda x: Mag("abs"), finfo=lambda *a: Sym("finfo", eps=1e-16, tiny=1e-300),
+                  linalg=Sym("linalg", norm=lambda x, *a, **k: Mag("norm")), max=lambda x, *a, **k: x if isinstance(x, Mag) else max(x), amax=lambda x, *a, **k: x)
     for mode, kw in (("economic SVD", {"full_matrices": False}), ("full SVD", {"full_matrices": True}), ("QR, system L", {"QR": True, "system": "L", "full_matrices": False})):
         it = SymInterp(src, None, {"np": npx, "get_qn_mask": mask, "optimized_svd": svd, "scipy": Sym("scipy", linalg=Sym("linalg", qr=qr, rq=qr)), "set": lambda xs: sorted(set(xs)), "logger": Blob("logger")})
         it.max_depth = 10
         problems = []
+        tiny[0] = False
         try:
             res = it.call_function(fi, [Coef(), LArr([[x] for x in lq], (4, 1)), LArr([[x] for x in rq_], (3, 1)), LArr([[tot]], (1,))], kw)
         except (ValueError, SymRaise) as e:
             res = None
             problems.append(f"{type(e).__name__}: {e}")
+        # the same run with every magnitude test of block entries answering `tiny`: a blocked decomposition is a function of the block structure alone, the scale of the
+        # entries (the scalar prefactor of the state may live in them) must not change which blocks are decomposed
+        if res is not None:
+            def sig(r):
+                return [[c for c in x.cols] if isinstance(x, PArr) else ([lab_(q) for q in x] if not isinstance(x, Vec) else x.v) for x in r]
+
+            def lab_(x):
+                return list(x.rows[0]) if isinstance(x, LArr) else list(x)
+            tiny[0] = True
+            try:
+                res2 = SymInterp(src, None, dict(it.builtins)).call_function(fi, [Coef(), LArr([[x] for x in lq], (4, 1)), LArr([[x] for x in rq_], (3, 1)), LArr([[tot]], (1,))], kw)
+                if sig(res2) != sig(res):
+                    problems.append("the result depends on the magnitude of the block entries (a block with small entries is skipped or treated differently): the decomposition is not "
+                                    "invariant under the scalar prefactor of the tensor")
+            except (ValueError, SymRaise) as e:
+                problems.append(f"with small block entries: {type(e).__name__}: {e}")
+            finally:
+                tiny[0] = False
         if res is not None:
             if kw.get("QR"):
                 u, ql, v, qr_l = res
@@ -2449,7 +2548,7 @@ class _Vec(Sym):
         return self + (-o)
 
 
-def _tdvp_run(src, qual, solver, imag, to_right, ofs=None, jw=False):
+def _tdvp_run(src, qual, solver, imag, to_right, ofs=None, jw=False, midpoint=False):
     """one abstract run of a tangent-space scheme; returns (solver calls, bookkeeping events)"""
     import sympy as sp
     resolve = class_resolver(src, {"Mps": MPS})
@@ -2468,6 +2567,17 @@ def _tdvp_run(src, qual, solver, imag, to_right, ofs=None, jw=False):
                 if not isinstance(y, _Vec) or list(y.terms) != ["1"]:
                     raise AnalysisError(f"effective operator applied to {y!r}")
                 return _Vec({self._name: y.terms["1"]})
+
+        def _cfg(name):
+            c = Sym(name, ivp_solver=solver, ivp_rtol=1e-5, ivp_atol=1e-8, stat=None, adaptive=midpoint, tdvp_cmf_midpoint=midpoint, tdvp_cmf_c_trapz=False,
+                    force_ovlp=False, reg_epsilon=1e-10, method="method")
+            c.__dict__["copy"] = lambda c=c: _cfg_copy(c)
+            return c
+
+        def _cfg_copy(c):
+            d = Sym(c._name + " (saved copy)", **{k: v for k, v in c.__dict__.items() if not k.startswith("_") and k != "copy"})
+            d.__dict__["copy"] = lambda d=d: _cfg_copy(d)
+            return d
 
         class QnList(list):
             def __init__(self, owner, items):
@@ -2489,8 +2599,7 @@ def _tdvp_run(src, qual, solver, imag, to_right, ofs=None, jw=False):
                 self.__dict__["qnidx"] = 0 if to_right else 3
                 self.qn = QnList(name, [f"qn{k}" for k in range(5)])
                 self.qntot = "qntot"
-                self.evolve_config = Sym("evolve_config", ivp_solver=solver, ivp_rtol=1e-5, ivp_atol=1e-8, stat=None, adaptive=False, tdvp_cmf_midpoint=False, tdvp_cmf_c_trapz=False,
-                                         force_ovlp=False, reg_epsilon=1e-10, method="method")
+                self.evolve_config = _cfg("evolve_config")
                 self.dtype = "dtype"
                 self.compress_config = Sym("compress_config", ofs=ofs, ofs_swap_jw=jw)
                 self.model = "model v0"
@@ -2520,6 +2629,13 @@ def _tdvp_run(src, qual, solver, imag, to_right, ofs=None, jw=False):
                 return self
 
             ensure_right_canonical = ensure_left_canonical
+
+            def evolve(self, mpo, dt, *a, **k):
+                """re-entry into the dispatcher (midpoint environment of the constant-mean-field scheme)"""
+                cfg_ = self.evolve_config
+                events.append(("reenter", self._name, _Sc.of(dt), {"midpoint": cfg_.tdvp_cmf_midpoint, "c_trapz": cfg_.tdvp_cmf_c_trapz, "adaptive": cfg_.adaptive}, cfg_._name))
+                c = St("re-entered")
+                return c
 
             def _get_big_qn(self, cidx, swap=False):
                 t = (self._name, self.version, tuple(cidx))
@@ -2587,6 +2703,7 @@ def _tdvp_run(src, qual, solver, imag, to_right, ofs=None, jw=False):
         me = St("state")
         step = _Sc(-sp.I * tau) if imag else _Sc(dt)
         it.call_function(fi, [me, Mpo_("mpo"), step])
+        events.append(("final config", me.evolve_config._name, {"midpoint": me.evolve_config.tdvp_cmf_midpoint, "c_trapz": me.evolve_config.tdvp_cmf_c_trapz, "adaptive": me.evolve_config.adaptive}))
         return calls, events
 
 
@@ -2834,3 +2951,32 @@ def taylor_adaptive_rule(chk, src, rule, rule_kind=None):
             chk.ob(rule_kind, f"Taylor evolver, adaptive [{name}]: relative error", bool(kinds) and not mixed, ft.where, {"numerator / denominator": sorted(set(kinds))}, "same kind on both sides", line=ft.node.lineno,
                    detail="the relative error that drives the adaptive step size divides a distance / norm without the scalar prefactor by one with it (or the reverse): the estimate is off by |coeff| "
                           "and steps are accepted / rejected against a different tolerance whenever coeff != 1")
+
+
+def cmf_midpoint_rule(chk, src, rule):
+    """the constant-mean-field scheme with a midpoint environment re-enters the dispatcher for half a step with the mean-field refinements switched off: abstract runs (real
+    and imaginary step, both local solvers) record the re-entry: the step handed in is exactly half the step of the call in the same time mode (dt/2, resp. -i tau/2), the
+    refinements (midpoint, trapezoid, adaptivity) are off during it, and afterwards the state has its configuration back with the flags it came with"""
+    import sympy as sp
+    dt, tau = sp.Symbol("dt", real=True, positive=True), sp.Symbol("tau", real=True, positive=True)
+    qual = "Mps._evolve_tdvp_mu_cmf"
+    fi = src.func(MPS, qual)
+    for imag in (False, True):
+        for solver in ("krylov", "RK45"):
+            calls, ev = _tdvp_run(src, qual, solver, imag, False, midpoint=True)
+            re_ = [e for e in ev if e[0] == "reenter"]
+            fin = [e for e in ev if e[0] == "final config"]
+            probs = []
+            want = (-sp.I * tau / 2) if imag else dt / 2
+            if len(re_) != 1:
+                probs.append(f"{len(re_)} re-entries into evolve(); expected one (the midpoint environment)")
+            else:
+                _, who, step, flags, cfgname = re_[0]
+                if step is None or sp.simplify(step - want) != 0:
+                    probs.append(f"midpoint environment evolved by {step}; expected {want} (half the step, same time mode)")
+                if flags != {"midpoint": False, "c_trapz": False, "adaptive": False}:
+                    probs.append(f"re-entry with flags {flags}; the refinements must be off for the first-order environment step")
+            if not fin or fin[0][2] != {"midpoint": True, "c_trapz": False, "adaptive": True}:
+                probs.append(f"after the call the state's configuration is {fin[0][1:] if fin else None}; expected the flags it came with (midpoint and adaptivity on)")
+            chk.ob(rule, f"{qual}, midpoint environment [{'imaginary' if imag else 'real'} time, {solver}]", not probs, fi.where, probs[:2] or f"re-entered with {want}", f"re-entry with {want}, refinements off, configuration restored",
+                   line=fi.node.lineno, detail="second-order constant mean field needs the environment at the midpoint t + dt/2 (in imaginary time: tau/2): another step makes the scheme first order without any error: " + (probs[0] if probs else ""))
